@@ -125,8 +125,8 @@ theorem stepU {env : Env} {file : AFile} {G : List String} {P : Prog} {F : GFile
         intro h; rw [List.contains_eq_mem] at hblank; simp [h] at hblank
       exact hnb hy
     · have := List.all_eq_true.mp hcallees c hc
-      simp only [Bool.not_eq_true', List.contains_eq_mem, decide_eq_false_iff_not] at this
-      exact this hy
+      simp only [Bool.and_eq_true, Bool.not_eq_true', List.contains_eq_mem, decide_eq_false_iff_not] at this
+      exact this.1 hy
   have hinv1 : GInv Bad S env1 := by
     refine ⟨hndS, fun y hy hk => ?_, fun y hy => hlocalsBad y (List.mem_append_right _ (List.mem_cons_of_mem _ hy)),
       fun y hk => ?_⟩
